@@ -96,7 +96,7 @@ func c07Class(spec TokSpec, stage, codec string) string {
 		}
 	}
 	if spec.Alg == "p384" || spec.Alg == "p521" {
-		hints = append(hints, "did-parse-rejects-"+spec.Alg)
+		hints = append(hints, "issuer-key-"+spec.Alg)
 	}
 	if len(hints) == 0 {
 		return stage + "/" + codec
